@@ -166,7 +166,7 @@ inline void violation(const std::string& part, const std::string& key, const std
 {
 	Ctx& c = ctx();
 	c.violation_total++;
-	c.counters["violating_cases." + part]++;
+	c.counters["violating_cases." + part + "." + key.substr(key.rfind('|') == std::string::npos ? 0 : key.rfind('|') + 1)]++;
 	if(c.replay) fprintf(stdout, "REPRODUCED part=%s key=%s\n  %s\n  case: %s\n", part.c_str(), key.c_str(), text.c_str(), cas.c_str());
 	if(c.violations.count(key)) return;
 	std::string cls = part + "|" + key.substr(key.rfind('|') == std::string::npos ? 0 : key.rfind('|') + 1);
